@@ -193,3 +193,42 @@ def e3w_jobs(ctx, spec, cfg, bs, m, maxnul=1, witness=True, timeout=900, mem_mb=
     ctx.functions.update(['yylex', 'yy_get_next_buffer', 'yy_get_previous_state', 'yy_try_NUL_trans', 'yyrestart',
                           'yy_init_buffer', 'yy_flush_buffer'])
     return jobs, g
+
+
+def e4_jobs(ctx, spec, cfg, mode, lengths, maxnul=0, timeout=600, mem_mb=10000, witness_len=None, extra_options=(), rej_k=None):
+    """History jobs: mode in reject | yyreject | edit | more."""
+    wd = ctx.subdir('%s__%s__e4%s' % (spec.name, cfg.name, mode))
+    opts = ALLOC_OPTS + list(extra_options)
+    if cfg.api == 'r':
+        opts = opts + ['reentrant']
+    g = H.gen_history_scanner(ctx.ensure_tree(), wd, spec, H.Config(cfg.name, cfg.flags, cfg.options, cfg.api), mode,
+                              extra_options=ALLOC_OPTS + list(extra_options))
+    hdr = os.path.join(wd, 'vp_harness.h')
+    if not os.path.exists(hdr):
+        shutil.copy(os.path.join(H.HDIR, 'vp_harness.h'), hdr)
+    jobs = []
+    if not g.ok:
+        return jobs, g
+    for n in lengths:
+        for w in ([False, True] if (witness_len == n) else [False]):
+            src = os.path.join(wd, 'e4%s_n%d%s%s.c' % (mode, n, '_w' if w else '', '' if rej_k is None else '_k%d' % rej_k))
+            with open(src, 'w') as fh:
+                if mode in ('reject', 'yyreject'):
+                    fh.write(H.e4_reject_harness(g, cfg, spec, n, maxnul=min(maxnul, n), witness=w, rej_k=rej_k))
+                else:
+                    fh.write(H.e4_edit_harness(g, cfg, spec, n, mode=mode, maxnul=min(maxnul, n), witness=w))
+            b = scanner_bounds(g, n + 1, min(maxnul, n) + 1)
+            nv = n * len(spec.rules) + 2
+            b.update({'goto_find_rule': nv, 'find_rule_for': n + 3, 'shiftup': n + 6,
+                      'action_site': (nv if mode in ('reject', 'yyreject') else n + 3)})
+            if rej_k is not None:
+                b['action_site'] = rej_k + 2
+            j = cbmc.Job('e4%s_%s_%s_n%d%s%s' % (mode, spec.name, cfg.name, n, '_w' if w else '', '' if rej_k is None else '_k%d' % rej_k), wd, [src], b,
+                         includes=[wd, H.HDIR], harness_bound=None, timeout=timeout, mem_mb=mem_mb, gen_file=g.cpath,
+                         expect='witness' if w else 'proved',
+                         meta=dict(engine='E4', entry=spec.name, config=cfg.name,
+                                   bound='%s: input length %d, nul<=%d' % (mode, n, min(maxnul, n)),
+                                   flex_input=g.ltext, flex_args=g.args))
+            jobs.append(j)
+    ctx.functions.update(['yylex', 'yyunput_r', 'yyinput', 'yyless', 'yymore', 'yyreject'])
+    return jobs, g
